@@ -82,7 +82,7 @@ pub fn sweep(threads: usize) -> (u64, Vec<i64>) {
                     });
                     if r != Ok(true) && local_bad.len() < 400 {
                         local_bad.push(n);
-                        prev = NaiveDate::from_num_days_from_ce_opt(n as i32);
+                        prev = crate::guard(|| NaiveDate::from_num_days_from_ce_opt(n as i32)).ok().flatten();
                     }
                 }
                 count.fetch_add(c, Ordering::Relaxed);
